@@ -13,6 +13,8 @@ inductive PyErr where
 
 abbrev M := Except PyErr
 
+deriving instance DecidableEq for Except
+
 /-- code points of a literal -/
 def cp (s : String) : Str := s.toList.map Char.toNat
 
